@@ -12,6 +12,7 @@ if only:
 mpath = os.path.join(ROOT, "seeded", "MATRIX.json")
 matrix = json.load(open(mpath)) if os.path.exists(mpath) else {}
 os.environ["VERIF_EVIDENCE_DIR"] = "/tmp/seed-evidence"
+os.environ["VERIF_REPLAY_DIR"] = "/tmp/seed-replays"
 for s in seeds:
     patch = os.path.join(ROOT, "seeded", s, "patch.diff")
     if subprocess.run(["git", "-C", REPO, "apply", patch]).returncode != 0:
@@ -34,8 +35,6 @@ for s in seeds:
     matrix[s] = row
     json.dump(matrix, open(mpath, "w"), indent=1)
     print(s, row, flush=True)
-for f in os.listdir(os.path.join(ROOT, "replays")):
-    os.remove(os.path.join(ROOT, "replays", f))
 lines = ["| seed | breaks | needs | " + " | ".join(c[1:] for c in [f"C{n:02d}" for n in range(1, 20)]) + " |", "|---|---|---|" + "---|" * 19]
 for s in sorted(matrix):
     meta = json.load(open(os.path.join(ROOT, "seeded", s, "meta.json")))
